@@ -59,11 +59,17 @@ struct Machine {
         if (fl.check_statics) { vf::static_guard().snapshot(); }   // through a known non-default state, so a case never depends on its predecessor
     }
     void release(int i) { // free through the library
-        if (!ptr[i]) return; polyseed_data* p = ptr[i];
+        if (!ptr[i]) return; polyseed_data* p = ptr[i]; last_freed = (uintptr_t)p;
         polyseed_free(p);
         ptr[i] = nullptr; slot[i].reset(); crypted[i] = false;
     }
     void finish() { for (int i = 0; i < NSLOTS; i++) release(i); }
+    // What the caller's output variables hold BEFORE a constructor / decoder call is none of the library's business: they are pre-set to NULL,
+    // to the (dangling) address of the seed freed last — which the recycling allocator is about to hand out again —, to another live seed,
+    // to a non-pointer; lang_out to NULL, to each registered language, to a non-pointer.  Results must be the same.
+    uintptr_t last_freed = 0;
+    polyseed_data* prior_seed(const Op& o) { switch ((o.a ^ (o.b >> 1) ^ (o.c >> 2)) & 3) { case 1: cls["out-var:dangling-address-of-last-freed-seed"]++; return (polyseed_data*)last_freed; case 2: cls["out-var:another-live-seed"]++; return ptr[pick_live(o.c)]; case 3: return (polyseed_data*)(uintptr_t)0x10; default: return nullptr; } }
+    const polyseed_lang* prior_lang(const Op& o) { size_t v = (size_t)(o.a + o.c) % (REG.size() + 2); if (v < REG.size()) { cls["out-var:lang_out-holds-a-language"]++; return REG.at(v).lang; } return v == REG.size() ? nullptr : (const polyseed_lang*)(uintptr_t)0x10; }
 
     std::string fresh_random(std::vector<uint8_t>& out) { out.resize(19); vf::SplitMix sm(vf::mix64(rand_ctr++ * 0x9E37u + step_no)); for (auto& b : out) b = (uint8_t)sm.next(); return ""; }
 
@@ -127,7 +133,7 @@ struct Machine {
             unsigned f = (o.a & 7u); if (o.a & 0x30) f &= mask;            // model-guided: three times out of four ask only for enabled features
             f |= ((o.a & 8u) ? 0xFFFFFFE0u : 0u);
             if (wr.enabled) { wr.malloc_calls = wr.time_calls = wr.free_calls = 0; wr.window = true; wr.fake = !(opt & deps::OPT_TIME); wr.fake_time = t; }   // no clock injected: the interposed libc time() delivers t
-            arm_now(); polyseed_data* s = nullptr; int st = (int)polyseed_create(f, &s); k.disarm(); if (wr.enabled) { wr.window = false; wr.fake = false; }
+            polyseed_data* s = prior_seed(o); arm_now(); int st = (int)polyseed_create(f, &s); k.disarm(); if (wr.enabled) { wr.window = false; wr.fake = false; }
             bool supported = ((f & 7u) & ~mask) == 0;
             if (st == 0) { ptr[i] = s; owned[i] = true; model::Seed m; memcpy(m.secret.data(), rnd.data(), 19); m.secret[18] &= 0x3F; m.features = f & 7u;
                 bool beyond = t != UINT64_MAX && t >= model::EPOCH + 1024 * model::STEP;
@@ -155,7 +161,7 @@ struct Machine {
             model::Seed src = slot[j] ? *slot[j] : model::Seed(); img = model::image(src);
             if (kind == 1) img[30] ^= 1; else if (kind == 2) img[0] ^= 0x20; else if (kind == 3) { src.features |= 8; img = model::image(src); } else if (kind == 4) img[28] |= 0x80; else if (kind == 5) { model::Seed z; z.features = (o.c >> 3) & 7u; z.birthday = (o.c == 5) ? 0 : o.c; img = model::image(z); src = z; }   // o.c == 5: the all-zero seed (valid: zero secret, month 0, no features, check value 0)
             release(i);
-            polyseed_data* s = nullptr; if (wr.enabled) { wr.malloc_calls = wr.free_calls = 0; wr.window = true; } arm_now(); int st = (int)polyseed_load(img.data(), &s); k.disarm(); if (wr.enabled) wr.window = false;
+            polyseed_data* s = prior_seed(o); if (wr.enabled) { wr.malloc_calls = wr.free_calls = 0; wr.window = true; } arm_now(); int st = (int)polyseed_load(img.data(), &s); k.disarm(); if (wr.enabled) wr.window = false;
             model::Seed ms; int expect = model::load_verdict(img.data(), mask, &ms);
             if (st == 0) { ptr[i] = s; owned[i] = true; slot[i] = (expect == 0) ? ms : model::Seed(); }
             if (observed_fail()) { saw_alloc_fail = true; if (st != model::MEMORY) err = std::string("the allocator failed during load but the status is ") + model::status_name(st); }
@@ -192,7 +198,7 @@ struct Machine {
                 else expect = supported ? model::OK : model::UNSUPPORTED;
             }
             release(i);
-            polyseed_data* s = nullptr; const polyseed_lang* lo = nullptr; if (wr.enabled) { wr.malloc_calls = wr.free_calls = 0; wr.window = true; }
+            polyseed_data* s = prior_seed(o); const polyseed_lang* lo = prior_lang(o); const polyseed_lang* lo_before = lo; (void)lo_before; if (wr.enabled) { wr.malloc_calls = wr.free_calls = 0; wr.window = true; }
             arm_now(); int st = expl ? (int)polyseed_decode_explicit(phrase.c_str(), (polyseed_coin)B, use, &s) : (int)polyseed_decode(phrase.c_str(), (polyseed_coin)B, (o.b & 0x40) ? nullptr : &lo, &s); k.disarm();   /* lang_out is optional */ if (wr.enabled) wr.window = false;
             if (st == 0) { ptr[i] = s; owned[i] = true; slot[i] = (expect == model::OK) ? src : lib::abstract(s); }
             if (observed_fail()) { saw_alloc_fail = true; if (st != model::MEMORY) err = std::string("the allocator failed during ") + what + " but the status is " + model::status_name(st); else if (fl.check_model && expect != model::OK && expect != model::UNSUPPORTED && expect != -1) err = std::string(what) + ": allocation attempted although the outcome must be " + model::status_name(expect); }
